@@ -109,7 +109,7 @@ pub fn read_field(b: &[u8], f: &Field) -> u64 {
 }
 
 /// The field-corruption value table of the property statement: 0, 1, 0x7F.., 0x80.., 0xFF..,
-/// and the original value +-1.
+/// the original value +-1, plus format-aware values (see below).
 pub fn field_values(orig: u64, width: usize) -> Vec<u64> {
     let bits = (8 * width.min(8)) as u32;
     let mask = if bits >= 64 { u64::MAX } else { (1u64 << bits) - 1 };
@@ -124,8 +124,21 @@ pub fn field_values(orig: u64, width: usize) -> Vec<u64> {
         (orig.wrapping_mul(2)) & mask,
         mask - 1,
         0x10000 & mask,
+        // the formats are built from 16-byte headers and 128-byte blocks: sizes and offsets that
+        // are off by one header or one block, moderately large counts, small negative values
+        orig.wrapping_add(16) & mask,
+        orig.wrapping_sub(16) & mask,
+        orig.wrapping_add(128) & mask,
+        orig.wrapping_sub(128) & mask,
+        orig.wrapping_add(144) & mask,
+        0x100 & mask,
+        0x1000 & mask,
+        mask - 3,
+        mask - 7,
+        mask - 15,
     ];
     v.retain(|x| *x != orig);
+    v.sort();
     v.dedup();
     v
 }
